@@ -191,7 +191,18 @@ func ruleC07a(c *Ctx) {
 		if wants == nil {
 			c.bad(name, "install only when the request asks for a supported coding", pos, "the install is not dominated by the true edge of wantsCompressedResponse(...)")
 		} else {
-			okArgs := p.isParam(wants.Call.Args[0], s.Req) && p.isParam(wants.Call.Args[1], s.RawW)
+			// arguments by type: the request and the writer, in whatever order the function takes them
+			okArgs := len(wants.Call.Args) == 2
+			for _, a := range wants.Call.Args {
+				switch {
+				case isHTTPRequestPtr(a.Type()):
+					okArgs = okArgs && p.isParam(a, s.Req)
+				case isHTTPResponseWriter(a.Type()):
+					okArgs = okArgs && p.isParam(a, s.RawW)
+				default:
+					okArgs = false
+				}
+			}
 			c.check(okArgs, name, "wantsCompressedResponse is asked about this request and this writer", p.ipos(wants), "arguments are the function's own request and writer", "the decision is taken on a different request or writer")
 			enc := strip(refinePhi(s.Call.Call.Args[1], facts))
 			ex, ok := enc.(*ssa.Extract)
